@@ -60,7 +60,7 @@ fn main() {
         if !probe.violations.keys().any(|k| k.contains(".access")) { eprintln!("HARNESS-ERROR canary: wrong expectation not flagged"); std::process::exit(3); }
     }
 
-    let n = ctx.tier.pick(10_000, 1_200_000);
+    let n = ctx.tier.pick(40_000, 1_200_000);
     run_cases(&ctx, &replay, &mut rep, "generated", n, |rng, rep, _| {
         let m = gen::gen_class(rng, &cfg);
         let feats = features::features(&m);
